@@ -499,7 +499,7 @@ def main(argv=None):
     # ---- determinism self-test ---------------------------------------------
     st = {"ran": False}
     if not a.no_selftest and not harness_errors and agg["digests"]:
-        n = 12 if a.tier == "quick" else 32
+        n = getattr(mod, "SELFTEST_N", {}).get(a.tier) or (12 if a.tier == "quick" else 32)
         pairs = [(i, seeds(i)) for i in sorted(agg["digests"])[:n]]
         ok, msg, cnt = selftest_digests(mod, a.tier, pairs, agg["digests"])
         st = {"ran": True, "seeds": cnt, "identical": ok,
